@@ -19,7 +19,7 @@ func c05MapCorpus(thorough bool) []c05Prog {
 	all := c05Corpus(thorough)
 	var out []c05Prog
 	for i, p := range all {
-		if p.temporal || strings.HasPrefix(p.name, "A") || i%9 == 0 || thorough && i%3 == 0 {
+		if p.temporal || strings.HasPrefix(p.name, "A") || i%9 == 0 || strings.HasPrefix(p.name, "M") && i%3 == 0 || thorough && i%3 == 0 {
 			out = append(out, p)
 		}
 	}
